@@ -222,6 +222,9 @@ func (r *Reference) Set(t Tag, value string) error {
 			return nil
 		}
 		hb := [16]byte{}
+		if hex.DecodedLen(len(value)) > len(hb) {
+			return errBadHeader
+		}
 		n, err := hex.Decode(hb[:], []byte(value))
 		if err != nil {
 			return err
